@@ -820,6 +820,10 @@ class ExprMixin:
 
     def w_event(self, st, how, target: V, attr, value: Optional[V], site):
         # ('W', how, target, target_prov, attr, value, value_prov, value_tags, via, site)
+        if isinstance(target, Sym) and (how.startswith("method:") or how in ("setitem", "delitem")):
+            # a container operation succeeded on it: it is a real container, not one of the marker objects / None
+            for other in (("S", "MISSING"), ("S", "EMPTY"), ("S", "UNCHANGED"), ("C", "NoneType", "None")):
+                st.facts.setdefault(("is", target.tok, other), False)
         st.emit("W", how, vrepr(target), tuple(sorted(prov_of(st, target))), attr,
                 None if value is None else vrepr(value),
                 None if value is None else tuple(sorted(prov_of(st, value))),
@@ -963,6 +967,14 @@ class ExprMixin:
                 self.w_event(st, how, objv, attr, None, site)
             return [Outcome("next", st)]
         if isinstance(objv, (Sym, ClassV, FuncV)):
+            outs = []
+            if how == "delattr()" and getattr(self.cfg, "delattr_may_raise", False):
+                # nothing stored under that name: delattr raises before changing anything
+                s2 = st.clone()
+                self.tick()
+                s2.emit("DELFAIL", vrepr(objv), attr, site)
+                outs.append(self.exc(s2, "AttributeError", site))
             self.w_event(st, how, objv, attr, None, site)
-            return [Outcome("next", st)]
+            outs.append(Outcome("next", st))
+            return outs
         raise AnalysisError(f"attribute delete on {objv!r} at {site}")
